@@ -100,7 +100,7 @@ Proof. vm_compute. repeat split. Qed.
 (* ================================================================== progress on the code model
    (C03/Round.v): one validator's state machine (C02/Model.v) over ARBITRARY states. *)
 From Coq Require Import Lia.
-From TM Require Import C02.ProofsVoteSet C02.ProofsOrder C02.ProofsLock C03.SyncWeak C03.Round C03.Pending C03.Tally C03.SyncModel C03.SyncNet C03.Unsettled C03.SyncExample.
+From TM Require Import C02.ProofsVoteSet C02.ProofsOrder C02.ProofsLock C03.SyncWeak C03.Round C03.Pending C03.Tally C03.SyncModel C03.SyncNet C03.UnfixedF83 C03.Unsettled C03.SyncExample.
 
 (* (d) no step is a dead end: a timeout the ticker holds for the current height and round and
    for a step not yet passed (NewHeight / Propose / PrevoteWait / PrecommitWait) moves
@@ -309,9 +309,10 @@ Print Assumptions C03_sync_without_settled_refuted.
 
 (* ================================================================== Sync.v under the weaker
    invariant Inv' (valid round >= lock round OR valid block = locked block): the clause
-   inv_lock_valid of Inv is not an invariant of the code (second theorem below: enterPrecommit
-   re-locks with LockedRound = round without the round's proposal block, the valid round stays
-   behind), Inv' is implied by Inv and suffices for the three theorems. *)
+   inv_lock_valid of Inv was not an invariant of the code BEFORE the repair of F83 (second theorem
+   below, stated on the unrepaired re-lock run_u83: enterPrecommit re-locked with LockedRound = round
+   without the round's proposal block, the valid round stayed behind; the repaired re-lock moves
+   the valid block too), Inv' is implied by Inv and suffices for the three theorems. *)
 Theorem C03_inv_weaken :
   forall (pol : list polka) (nodes : list node), Inv pol nodes -> Inv' pol nodes.
 Proof. exact Inv_weaken. Qed.
@@ -319,7 +320,7 @@ Print Assumptions C03_inv_weaken.
 
 Theorem C03_lock_above_valid_reachable :
   exists (E : env) (ins : list input),
-    let s := fst (run E (init_state E 1 None) ins) in
+    let s := fst (run_u83 E (init_state E 1 None) ins) in
     let n := abs 10 s in
     let pol : list polka := [(0, Some 5%N); (1, Some 5%N)] in
     cs_halted s = false /\
@@ -592,19 +593,22 @@ Print Assumptions C03_sync_lock_ok.
 (* ================================================================== termination END TO END: what is true, what
    is refuted (C03/TermLV.v, TermSim.v, TermValue.v).
 
-   (1) "A locked machine holds its locked block as its valid block" is NOT an invariant of the
-   (F70-repaired) code model.  One machine, 29 inputs from the initial state: locked on X with
+   (1) Finding F83, REPAIRED; the regression witnesses are stated on the state machine with the
+   UNREPAIRED re-lock of enterPrecommit (C03/UnfixedF83.v: run_u83 = Model.run with Model.relock_unfixed
+   for Model.relock, nothing else changed); C03_relock_repaired is the counterpart on the model of record.
+   "A locked machine holds its locked block as its valid block" was NOT an invariant of the
+   F70-repaired code model.  One machine, 29 inputs from the initial state: locked on X with
    LockedRound 6, valid block Y with ValidRound 2, not halted, at (1, 7, Propose); lock and valid
    block both backed by polkas it holds; the unlock rule of the prevote step never releases this
    lock (it only looks above round 6); SyncWeak.Inv' fails for every pol.  Finding F83:
    handleCompleteProposal sets ValidBlock from the current round's polka without looking at the
    lock, enterPrecommit re-locks (LockedRound := round) without updating ValidBlock - reachable
    even at step Propose through a +2/3 precommit majority for nil. *)
-From TM Require Import C03.TermLV C03.TermSim C03.TermValue.
+From TM Require Import C03.UnfixedF83 C03.TermLV C03.TermSim C03.TermValue.
 
 Theorem C03_lock_on_other_than_valid_reachable :
   exists (E : env) (ins : list input),
-    let s := fst (run E (init_state E 1 None) ins) in
+    let s := fst (run_u83 E (init_state E 1 None) ins) in
     let n := abs 10 s in
     cs_halted s = false /\ (cs_height s, cs_round s, cs_step s) = (1, 7, SPropose) /\
     n_lock n = Some (6, 5%N) /\ n_valid n = Some (2, 7%N) /\
@@ -621,20 +625,44 @@ Print Assumptions C03_lock_on_other_than_valid_reachable.
    propose timeout, all signed prevotes to everybody, prevote-wait timeout, all signed
    precommits to everybody, precommit-wait timeout) - NO machine decides, A stays locked on X
    with valid block Y (it proposes Y and prevotes X), everybody ends in round 23.  Replayed on three
-   real consensus.State nodes (work/deepen/C03b-replay): same outcome; with the proposed repair
+   real consensus.State nodes (work/deepen/C03b-replay; a DIRECTED scenario of the C03 harness,
+   c03F83Prefix, cases k%20==19): same outcome on the unrepaired repository; with the repair
    fixes/F83 the same run decides in A's round 7. *)
 Theorem C03_livelock_on_model :
   map view lv_net =
     [ (0%nat, 1, 7, SPropose, (6, Some 5%N), (2, Some 7%N));
       (1%nat, 1, 7, SPropose, (-1, None), (-1, None));
       (2%nat, 1, 7, SPropose, (-1, None), (-1, None)) ] /\
-  any_decision (snd (sync_rounds w_vals sim_sig sim_peer 1 16 7 lv_net)) = false /\
-  map view (fst (sync_rounds w_vals sim_sig sim_peer 1 16 7 lv_net)) =
+  any_decision (snd (sync_rounds run_u83 w_vals sim_sig sim_peer 1 16 7 lv_net)) = false /\
+  map view (fst (sync_rounds run_u83 w_vals sim_sig sim_peer 1 16 7 lv_net)) =
     [ (0%nat, 1, 23, SPropose, (6, Some 5%N), (2, Some 7%N));
       (1%nat, 1, 23, SPropose, (-1, None), (-1, None));
       (2%nat, 1, 23, SPropose, (-1, None), (-1, None)) ].
 Proof. exact (conj lv_net_entry lv_livelock_16_rounds). Qed.
 Print Assumptions C03_livelock_on_model.
+
+(* the counterpart on the MODEL OF RECORD (F83 repaired: enterPrecommit's re-lock also sets
+   ValidRound/ValidBlock/ValidBlockParts when ValidRound < round): the same 29 inputs - the two
+   machines agree on the first 26, at the re-lock (input 27) the valid block becomes X with valid
+   round 6; the machine ends in round 7 locked on X with valid block X, proposes (X, POL round 6)
+   and prevotes X; and the closed-loop network of C03_livelock_on_model (same three input lists)
+   DECIDES X in A's proposer round 7, every machine *)
+Theorem C03_relock_repaired :
+  (fst (run (lv_env 0) (init_state (lv_env 0) 1 None) (firstn 26 lv_prefix)) = lv_after 26 /\
+   lv_view (fst (run (lv_env 0) (init_state (lv_env 0) 1 None) (firstn 27 lv_prefix))) = (6, SPrecommit, (6, Some 5%N), (6, Some 5%N)) /\
+   lv_view lv_state_fixed = (7, SPropose, (6, Some 5%N), (6, Some 5%N)) /\
+   In (OSignProposal 1 7 6 (Some 5%N)) (last (snd (run (lv_env 0) (init_state (lv_env 0) 1 None) lv_prefix)) []) /\
+   concat (snd (run (lv_env 0) lv_state_fixed [lv_prop 7 6 5%N; IPart 1 (1%N, 50%N) 0%N (Some lv_bX)])) =
+     [OSignVote PREVOTE 1 7 w_X]) /\
+  (map view lv_net_fixed =
+   [ (0%nat, 1, 7, SPropose, (6, Some 5%N), (6, Some 5%N));
+     (1%nat, 1, 7, SPropose, (-1, None), (-1, None));
+     (2%nat, 1, 7, SPropose, (-1, None), (-1, None)) ] /\
+   map all_decide_in (snd (sync_rounds run w_vals sim_sig sim_peer 1 1 7 lv_net_fixed)) = [true] /\
+   forallb (fun o => existsb (fun x => match x with ODecide 1 7 5%N => true | _ => false end) o)
+           (nth 0 (snd (sync_rounds run w_vals sim_sig sim_peer 1 1 7 lv_net_fixed)) []) = true).
+Proof. exact (conj lv_repaired lv_fixed_decides). Qed.
+Print Assumptions C03_relock_repaired.
 
 (* at the value level the configuration is a FIXED POINT: Inv' fails, the unlock rule changes
    nothing, every correct proposer proposes Y, no value and not nil reaches +2/3 among the correct
@@ -710,8 +738,8 @@ Theorem C03_rounds_in_sequence_on_model :
     [ (0%nat, 1, 1, SPropose, (0, Some 5%N), (0, Some 5%N));
       (1%nat, 1, 1, SPropose, (-1, None), (-1, None));
       (2%nat, 1, 1, SPropose, (-1, None), (-1, None)) ] /\
-  let os := snd (sync_rounds w_vals sim_sig sim_peer 1 3 1 fw_net) in
-  let l := fst (sync_rounds w_vals sim_sig sim_peer 1 3 1 fw_net) in
+  let os := snd (sync_rounds run w_vals sim_sig sim_peer 1 3 1 fw_net) in
+  let l := fst (sync_rounds run w_vals sim_sig sim_peer 1 3 1 fw_net) in
   map all_decide_in os = [false; false; true] /\
   map (fun rd => existsb (fun o => existsb decides o) rd) os = [false; false; true] /\
   map (map signed_votes) (firstn 2 os) =
@@ -732,3 +760,37 @@ Example C03_sync_reach_nonvacuous :
                 {| n_power := 10; n_lock := Some (2, 8%N); n_valid := Some (2, 8%N) |};
                 {| n_power := 10; n_lock := Some (2, 8%N); n_valid := Some (2, 8%N) |} ]).
 Proof. exact fw_two_rounds. Qed.
+
+(* ================================================================== the repaired re-lock (F83; C03/LockValid.v), over
+   ARBITRARY states of the model of record: enterPrecommit at round r, holding the polka of round
+   r for the block it is locked on, re-locks AND takes the locked block as valid block: afterwards
+   ValidRound = LockedRound = r and the valid block IS the locked block (same hash) - given that
+   the valid block is backed by the polka of its round (C03_reachable_lock_backed: every run)
+   and ValidRound <= r with ValidRound < r when there is no valid block (ordering facts of the
+   fields, NOT yet derived from reachability: that 'locked on X => valid block X or a later valid
+   round' is an invariant of ALL runs of the repaired model remains to be proved; the
+   refutation witnesses above no longer apply to it: C03_relock_repaired). *)
+From TM Require Import C03.LockValid.
+
+Theorem C03_relock_sets_valid :
+  forall (E : env) (h r : Z) (s : cstate) (lb : block) (hb : N) (ph : psh) (s' : cstate) (o : list output),
+    cs_halted s = false -> cs_height s = h -> cs_round s = r -> step_rank (cs_step s) < 6 ->
+    o_maj23 (prevotes (cs_votes s) r) = Some (Some (hb, ph)) -> 0 <= r <= hv_round (cs_votes s) ->
+    cs_lblock s = Some lb -> b_hash lb = hb ->
+    backed (cs_votes s) (cs_vround s) (cs_vblock s) -> cs_vround s <= r ->
+    (cs_vblock s = None -> cs_vround s < r) ->
+    enter_precommit E h r s = (s', o) ->
+    o = (if is_validator E then [OSignVote PRECOMMIT h r (Some (hb, ph))] else []) /\
+    cs_step s' = SPrecommit /\ cs_lblock s' = Some lb /\ cs_lround s' = r /\ cs_vround s' = r /\
+    exists vb, cs_vblock s' = Some vb /\ b_hash vb = hb.
+Proof. exact relock_sets_valid. Qed.
+Print Assumptions C03_relock_sets_valid.
+
+(* non-vacuity: the state of C03_relock_repaired just before the re-lock (26 inputs) with the third
+   nil precommit's bookkeeping aside: enterPrecommit(1, 6) on it re-locks X and sets the valid block *)
+Example C03_relock_sets_valid_nonvacuous :
+  let s := lv_after 26 in
+  cs_halted s = false /\ (cs_height s, cs_round s) = (1, 6) /\ step_rank (cs_step s) < 6 /\
+  o_maj23 (prevotes (cs_votes s) 6) = Some w_X /\ cs_lblock s = Some lv_bX /\ cs_vround s = 2 /\
+  lv_view (fst (enter_precommit (lv_env 0) 1 6 s)) = (6, SPrecommit, (6, Some 5%N), (6, Some 5%N)).
+Proof. vm_compute. repeat split. Qed.
